@@ -88,7 +88,7 @@ class Model:
         si = self.nodes.index(s) if s in self.nodes else self._add(s)
         ti = self.nodes.index(t) if t in self.nodes else self._add(t)
         if not self.unused[si][0] or not self.unused[ti][1]:
-            return "error"
+            return "error-no-index"
         i = self.unused[si][0].pop(0)
         j = self.unused[ti][1].pop(0)
         if self.sig[s][1] != self.sig[t][1]:
@@ -196,6 +196,11 @@ def _apply_real(objs, prog, constructor=False):
         try:
             if a[0] == "node":
                 d.add_node(objs[a[1]])
+            elif a[0] == "rejected":
+                try:
+                    d.add_edge(objs[a[1]], objs[a[2]])
+                except Exception:  # noqa: BLE001  (the caller established that this edge is rejected)
+                    pass
             else:
                 d.add_edge(objs[a[1]], objs[a[2]])
         except Exception as e:  # noqa: BLE001
@@ -237,11 +242,19 @@ def case_programs(ctx, cfg):
         d, err = ctx.call(_apply_real, objs, prog2)[0]
         ctx.trace()
         inputs = {"program": prog2}
-        if pred == "error":
+        if pred in ("error", "error-no-index"):
             ctx.tally("edge:error-predicted")
             if err is None or not isinstance(err[1], TensorComputationError):
                 ctx.fail("diagram:missing-TensorComputationError", "add_edge", inputs, "TensorComputationError", "no exception" if err is None else err[1])
-            return None  # erroring paths are terminal
+                return None
+            if pred == "error" or err[0] != len(prog2) - 1:
+                return None  # a dimension mismatch is terminal (what it leaves behind is not specified)
+            # "no index left": the rejected edge consumed nothing; the diagram (with any node the edge introduced) must go
+            # on working - compared below like any other state and explored further
+            prog2 = prog + (("rejected",) + tuple(a[1:]),)
+            d, err = ctx.call(_apply_real, objs, prog2)[0]
+            inputs = {"program": prog2}
+            ctx.tally("edge:rejected-then-continued")
         if err is not None:
             kind = "self-loop-on-new-node" if a[0] == "edge" and a[1] == a[2] and a[1] not in model.nodes else "edge"
             ctx.fail(f"diagram:unexpected-error:{kind}:{type(err[1]).__name__}", "add_edge", inputs, "no exception", err[1])
@@ -252,7 +265,7 @@ def case_programs(ctx, cfg):
             return None
         seen.add(key)
         ctx.state(key)
-        fresh_loop = any(x[0] == "edge" and x[1] == x[2] and x[1] not in _nodes_before(prog2, k) for k, x in enumerate(prog2))
+        fresh_loop = any(x[0] in ("edge", "rejected") and x[1] == x[2] and x[1] not in _nodes_before(prog2, k) for k, x in enumerate(prog2))
         tag = ":self-loop-on-new-node" if fresh_loop else ""
         # private bookkeeping, when present, must equal the model's
         if hasattr(d, "_unused_indices") and hasattr(d, "_contraction_list") and hasattr(d, "_nodes"):
@@ -277,18 +290,19 @@ def case_programs(ctx, cfg):
             ctx.fail("diagram:index-types" + tag, "calculate", inputs, {"free": nf, "cov": ncov, "con": ncon}, {"tensor_shape": res.tensor_shape, "cov": sorted(res._covariant_indices), "con": sorted(res._contravariant_indices)})
             return None
         # the constructor form TensorDiagram(*edges) denotes the same diagram
-        if all(x[0] == "edge" for x in prog2):
+        if all(x[0] == "edge" for x in prog2):  # (programs with rejected edges cannot be written as one constructor call)
             pair, e2 = ctx.call(_apply_real, objs, prog2, True)
             r2, e3 = ctx.call(pair[0].calculate) if e2 is None else (None, e2)
             ctx.trace()
             if e3 is not None or r2.array.shape != want.shape or not np.array_equal(r2.array, want) or r2.tensor_shape != (ncov, ncon):
                 ctx.fail("diagram:constructor-form" + tag, "TensorDiagram(*edges)", inputs, want, e3 if e3 is not None else r2.array)
+        m2.prog = prog2
         return m2
 
     root = Model(sig)
     m1 = step(root, (), first)
     if m1 is not None:
-        queue.append((m1, (first,)))
+        queue.append((m1, m1.prog))
     while queue:
         model, prog = queue.popleft()
         if len(prog) >= depth or ctx.expired():
@@ -296,7 +310,7 @@ def case_programs(ctx, cfg):
         for a in acts:
             m2 = step(model, prog, a)
             if m2 is not None:
-                queue.append((m2, prog + (a,)))
+                queue.append((m2, m2.prog))
     # operands must be untouched by diagram construction and evaluation
     fresh = make_objects(tier)
     for k in objs:
